@@ -186,6 +186,7 @@ func main() {
 		"non-RTP publisher (UseRTPPackets=false), one format per stream, one reader, sequential writes; RTP publishers reach the same updater/remuxer through rtpDecoder (not enumerated here)",
 		"NAL unit contents are 2-byte tokens (one 1-byte NALU); parameter sets are told apart by type only, as the property does",
 		"don't-cares: parameter sets placed after the key frame NALU inside the same unit may or may not be the ones prepended; when only part of the parameter sets is known, prepending nothing or the known ones are both accepted; a unit that becomes empty may be delivered empty or not at all",
+		"aliasing over time is judged by content (retained reference vs deep-copied snapshot; receive buffer vs what the publisher wrote): an in-place write of identical bytes is invisible; retained references stand for a late reader or one that keeps units",
 		"MPEG-4 Video: 'configuration' = bytes from a leading visual-object-sequence start code up to the first group-of-VOP start code; the configuration is expected in front of the frame that contains the GOV",
 	}
 	r.Finish()
